@@ -491,7 +491,7 @@ class SparselyBin(Factory, Container):
                 "bins": {str(i): v.toJsonFragment(True) for i, v in self.bins.items()},
                 "nanflow:type": self.nanflow.name,
                 "nanflow": self.nanflow.toJsonFragment(False),
-                "origin": self.origin,
+                "origin": floatToJson(self.origin),
             },
             **{
                 "name": None if suppressName else self.quantity.name,
@@ -561,7 +561,7 @@ class SparselyBin(Factory, Container):
             nanflow = nanflowFactory.fromJsonFragment(json["nanflow"], None)
 
             if json["origin"] in ("nan", "inf", "-inf") or isinstance(json["origin"], numbers.Real):
-                origin = json["origin"]
+                origin = float(json["origin"])
             else:
                 raise JsonFormatException(json, "SparselyBin.origin")
 
